@@ -99,13 +99,17 @@ func runEntry(e entry, data []byte, plan simio.Plan, c *worker.Ctx) (out passOut
 		p = parser.New(tk)
 	}
 	out.tree, out.err = e.run(p)
-	if out.err == nil && !e.custom {
+	if out.err == nil && !e.custom && !skipRender {
 		// (a describe block prints its hooks in the order of a Go map: its text
 		// is not a function of the tree, so it is not used as one)
 		out.rendered = renderTree(out.tree)
 	}
 	return
 }
+
+// skipRender: set by the deep-nesting mode, where printing a tree of 10⁵ levels
+// is quadratic in its depth and is not what is being judged.
+var skipRender bool
 
 func renderTree(t any) (s string) {
 	defer func() {
@@ -490,12 +494,134 @@ func firstLineDiff(a, b string) string {
 	return "(equal)"
 }
 
+// ---- deep nesting -------------------------------------------------------------
+//
+// Sources whose nesting (parentheses, negations, blocks, if blocks, calls) or
+// operator chains are 10⁵ to 3·10⁶ levels deep: a recursive-descent parser
+// without a bound on its depth exhausts the goroutine stack on them, which the
+// Go runtime turns into a fatal error no recover() sees (the worker dies; the
+// driver re-runs the case alone and reports it). Rare (about one case in
+// 20 000) because each costs up to a few seconds and several hundred MB.
+
+var deepDepths = []int{20000, 99000, 100001, 150000, 1300000, 3000000}
+var deepKinds = []string{"paren", "not", "block", "if", "chain", "mix", "call", "minus"}
+
+func deepSource(kind string, n int, snippet bool) []byte {
+	var b strings.Builder
+	rep := func(unit string, k int) { // a newline every 500 units keeps the lines short
+		for i := 0; i < k; i += 500 {
+			m := min(500, k-i)
+			b.WriteString(strings.Repeat(unit, m))
+			b.WriteString("\n")
+		}
+	}
+	if !snippet {
+		b.WriteString("sub vcl_recv {\n")
+	}
+	switch kind {
+	case "paren":
+		b.WriteString("set req.http.X = ")
+		rep("(", n)
+		b.WriteString("\"a\"")
+		rep(")", n)
+		b.WriteString(";\n")
+	case "not":
+		b.WriteString("if (")
+		rep("!", n)
+		b.WriteString("req.http.A) { esi; }\n")
+	case "minus":
+		b.WriteString("set req.http.X = ")
+		rep("- ", n)
+		b.WriteString("1;\n")
+	case "block":
+		rep("{", n)
+		b.WriteString("esi;\n")
+		rep("}", n)
+	case "if":
+		rep("if (req.http.A) { ", n)
+		b.WriteString("esi;\n")
+		rep("}", n)
+	case "chain":
+		b.WriteString("set req.http.X = ")
+		rep("\"a\" ", n)
+		b.WriteString(";\n")
+	case "call":
+		b.WriteString("set req.http.X = ")
+		rep("f(", n)
+		b.WriteString("1")
+		rep(")", n)
+		b.WriteString(";\n")
+	default: // mix: L nested groups, each the first operand of a chain of L operands (tree height L²)
+		l := 1
+		for l*l < n {
+			l++
+		}
+		b.WriteString("set req.http.X = ")
+		rep("(", l)
+		b.WriteString("\"x\"")
+		for i := 0; i < l; i++ {
+			rep(" \"a\"", l)
+			b.WriteString(")")
+		}
+		b.WriteString(";\n")
+	}
+	if !snippet {
+		b.WriteString("}\n")
+	}
+	return []byte(b.String())
+}
+
+func runC01Deep(c *worker.Ctx) {
+	res := c.Res
+	kind := deepKinds[c.T.Draw(len(deepKinds))]
+	n := deepDepths[c.T.Draw(len(deepDepths))]
+	ei := c.T.Draw(2) // ParseVCL or ParseSnippetVCL
+	src := deepSource(kind, n, ei == 1)
+	c.Logf("deep kind=%s n=%d entry=%s bytes=%d", kind, n, entries[ei].name, len(src))
+	res.Sig = fmt.Sprintf("deep|%s|%d|%d", kind, n, ei)
+	res.Nontrivial = true
+	res.Fault("deep_nesting")
+	skipRender = true
+	defer func() { skipRender = false }()
+	o := runEntry(entries[ei], src, simio.Plan{Chunk: "all", Terminal: "eof"}, c)
+	what := fmt.Sprintf("%s nested %d levels (%d bytes) via %s", kind, n, len(src), entries[ei].name)
+	switch {
+	case o.panicV != nil:
+		res.Violate("C01/O1-no-panic", "C01/parse-panic:deep:"+o.stack+":"+panicClass(o.panicV), fmt.Sprintf("parser panicked on %s: %v", what, o.panicV))
+	case o.spin != "":
+		res.Violate("C01/O2-terminates", "C01/parse-spin:deep:"+o.stack, fmt.Sprintf("parser does not terminate (%s budget) on %s", o.spin, what))
+	case o.err != nil:
+		res.Probe("deep_source_rejected_with_error")
+		pe, isPE := errors.Cause(o.err).(*parser.ParseError)
+		if !isPE || pe == nil {
+			res.Violate("C01/O4-error-located", "C01/error-unlocated:deep:"+errClass(o.err), fmt.Sprintf("%s: the error is not a *parser.ParseError: %v", what, clipSrc(o.err.Error())))
+			break
+		}
+		loc := newLocated(src)
+		if w := checkErrorToken(pe.Token, loc, nil); w != "" && w != "not-at-text" {
+			res.Violate("C01/O4-error-located", "C01/error-location:deep:"+string(pe.Token.Type)+":"+w, fmt.Sprintf("%s: error %q carries token {%s}: %s", what, pe.Message, pe.Token.String(), w))
+		}
+	default:
+		res.Probe("deep_source_parsed")
+		if isNilTree(o.tree) && ei == 0 {
+			res.Violate("C01/O4-tree-xor-error", "C01/no-tree-no-error:deep", "neither a tree nor an error for "+what)
+		}
+	}
+	if c.Render {
+		res.Rendering = map[string]any{"mode": "deep nesting", "kind": kind, "levels": n, "bytes": len(src), "entry": entries[ei].name, "outcome": o.class(), "error": clipSrc(fmt.Sprint(o.err))}
+	}
+}
+
 func runC01(c *worker.Ctx) {
 	res := c.Res
 	mode := c.T.Draw(7)
 	if mode == 6 {
-		if c.T.Bool(1, 6) {
+		switch k := c.T.Draw(3000); {
+		case k < 500:
 			runC01Interleaved(c)
+			return
+		case k == 2999:
+			runC01Deep(c)
 			return
 		}
 		mode = c.T.Draw(6)
